@@ -47,7 +47,7 @@ def op_mul(cpu, d, n, m, setflags):
     r32 = uint(r, 32)
     cpu.setR(d, r32)
     cpu.when(setflags, lambda k: nz32(k, r32))
-    cpu.UNKNOWN(land(setflags, cpu.arch() == 4))
+    cpu.unknown_bits('cpsr', ite(land(setflags, cpu.arch() == 4), 1 << 29, 0))         # APSR.C = bit UNKNOWN in ARMv4
 
 
 def op_mla(cpu, d, n, m, a, setflags):
@@ -55,7 +55,7 @@ def op_mla(cpu, d, n, m, a, setflags):
     r32 = uint(r, 32)
     cpu.setR(d, r32)
     cpu.when(setflags, lambda k: nz32(k, r32))
-    cpu.UNKNOWN(land(setflags, cpu.arch() == 4))
+    cpu.unknown_bits('cpsr', ite(land(setflags, cpu.arch() == 4), 1 << 29, 0))         # APSR.C = bit UNKNOWN in ARMv4
 
 
 def op_mls(cpu, d, n, m, a):
@@ -68,7 +68,7 @@ def long_result(cpu, dhi, dlo, r, setflags):
     cpu.setR(dhi, bits(r64, 63, 32))
     cpu.setR(dlo, bits(r64, 31, 0))
     cpu.when(setflags, lambda k: k.set_flags(n=bit(r64, 63), z=b2i(r64 == 0)))
-    cpu.UNKNOWN(land(setflags, cpu.arch() == 4))
+    cpu.unknown_bits('cpsr', ite(land(setflags, cpu.arch() == 4), 3 << 28, 0))         # APSR.C, APSR.V = bit UNKNOWN in ARMv4
 
 
 def acc64(cpu, dhi, dlo):
